@@ -134,6 +134,18 @@ pub struct Position {
 	build: Box<dyn Fn(&RefVal) -> SClass + Send + Sync>,
 }
 
+impl Position {
+	/// the one-position class of this position for the reference `r`
+	pub fn host(&self, r: &RefVal) -> SClass {
+		(self.build)(r)
+	}
+}
+
+/// the reference of a kind for a slot (`None`: the kind does not apply to the slot)
+pub fn refval_of(slot: Slot, kind: usize) -> Option<RefVal> {
+	refval(slot, kind)
+}
+
 fn refval(slot: Slot, kind: usize) -> Option<RefVal> {
 	let class_kind = kind < 5;
 	let d = |k: usize| DESC_OF_KIND[k].to_owned();
@@ -342,6 +354,8 @@ pub fn positions() -> Vec<Position> {
 	add("annotation.value.enum", Slot::EnumConst, Box::new(|r| class_ann_with(enum_value(r))));
 	add("annotation.value.enum-in-array", Slot::EnumConst, Box::new(|r| class_ann_with(SElementValue::Array(vec![SElementValue::Const(b'I', SConst::Int(1)), enum_value(r)]))));
 	add("annotation.value.enum-in-nested-annotation", Slot::EnumConst, Box::new(|r| class_ann_with(SElementValue::Annotation(ann("Lp/Other;", Some(enum_value(r)))))));
+	// an enum constant of an array type does not exist; the type descriptor is a descriptor like all others and the name stays
+	add("annotation.value.enum-of-any-type", Slot::FieldDesc, Box::new(|r| class_ann_with(SElementValue::Enum { type_name: r.desc(), const_name: js("ZZ") })));
 	add("annotation.value.class", Slot::FieldDesc, Box::new(|r| class_ann_with(SElementValue::Class(r.desc()))));
 	add("annotation.value.class-in-array", Slot::FieldDesc, Box::new(|r| class_ann_with(SElementValue::Array(vec![SElementValue::Class(js("V")), SElementValue::Class(r.desc())]))));
 	add("annotation.value.annotation.type", Slot::FieldDesc, Box::new(|r| class_ann_with(SElementValue::Annotation(ann(&r.desc().to_string_lossy(), None)))));
@@ -545,6 +559,16 @@ pub fn specs() -> Vec<Spec> {
 	s.class("java/lang/Object", "j/l/Obj").class("java/lang/Enum", "j/l/En").class("java/lang/annotation/Annotation", "j/l/a/Ann").class(M, "p/N").class(IN, "p/N$In");
 	s.method("java/lang/Object", "clone", "()Ljava/lang/Object;", "copy").method("java/lang/Object", "<init>", "()V", "<init>");
 	out.push(s);
+
+	// entries that say "stays as it is": a class mapped to its own name, members mapped to their own names while the
+	// classes in their descriptors are renamed
+	for (name, engine) in [("identity-entries", Engine::QuillJarProvider), ("identity-entries-table", Engine::Table { inherit: true })] {
+		let mut s = Spec::new(name, engine);
+		s.class(M, M).class(IN, IN).class(HOST, HOST).class(E, E).class(V, "p/W").class(ITF, "p/Jtf").class(EXT, EXT);
+		s.field(M, "f", "I", "f").field(M, "g", "Lp/M;", "g").field(E, "K", "Lp/E;", "K").field(EXT, "xf", "I", "xf2");
+		s.method(M, "m", "()V", "m").method(M, "n", "(Lp/M;)Lp/V;", "n").method(ITF, "i", "()V", "i").method(EXT, "x", "()V", "x");
+		out.push(s);
+	}
 
 	let mut s = Spec::new("unicode", Engine::QuillJarProvider);
 	s.class(M, "p/Ünï").class(IN, "p/Ünï$Ñ").class(V, "π/V");
